@@ -114,6 +114,9 @@ func buildClosureInfo(p *Prog) *closureInfo {
 
 var theClosures *closureInfo
 
+// theProg is the program being analysed (set with theClosures; for helpers that have no Prog parameter).
+var theProg *Prog
+
 // pathOf computes the access path of v. resolveFree: follow closure free
 // variables into the parent function's values.
 func pathOf(v ssa.Value) *Path { return pathOfOpt(v, true, 0) }
